@@ -550,6 +550,9 @@ func rulesC19(e *Engine, r *Report) {
 			}
 		}
 	}
+	// ---------------------------------------------------------------- R19.10
+	r.Rule("R19.10", "each tag's method setting is applied to exactly its files: an omitted method means http for EVERY tag (the default is not applied to a prefix of the tag list only) before the methods are turned into the store's ignore patterns - shared with R17.9")
+	e.checkMethodDefault(r, "R19.10")
 }
 
 func tagOfField(f *types.Var) string { return strings.ToLower(f.Name()) }
